@@ -40,7 +40,7 @@ pub fn thread_calls() -> u64 {
 
 /// # Safety
 /// Called by libc users with a valid buffer of `len` bytes.
-#[no_mangle]
+#[cfg_attr(not(feature = "real_entropy"), no_mangle)]
 pub unsafe extern "C" fn getrandom(buf: *mut u8, len: usize, _flags: u32) -> isize {
     GLOBAL_CALLS.fetch_add(1, Ordering::Relaxed);
     let n = CALLS.with(|c| {
